@@ -100,6 +100,7 @@ def check(ctx, replay=None):
                                "ret": res["mod"].rust_ty(call["m"]["ret"]), "observed": res["records"].get(ci)})
     import c01_extra, c01_callbacks
     nextra = c01_extra.run(ctx)
+    nextra += c01_extra.run_write_and_value(ctx)
     nextra += c01_callbacks.run(ctx, "c", ("c11",))
     fails = run_shards(PROP, HEADER, goals) if goals else []
     if fails and not ctx.violations:
